@@ -238,3 +238,7 @@ _amend('C12', "static analysis: guard normalisation", "static analysis: interpre
 _amend('C11', "Decides: ITML's duals start at zero", "Decides: _fit, interpreted for two sweeps over five pairs with bounds (3, 11) and gamma = 2 (data entering only through a table of values v^T A v, the matrix a version counter), makes exactly the ten rank-one updates (pair, version, beta) of the documented cyclic projections - alpha, beta, dual and slack updates exact in rationals, similar pairs then dissimilar ones, every sweep - whether written as two loops, one fused loop, step helpers or a table of constraint kinds; ITML's duals start at zero")
 _amend('C11', "static analysis: inductive sign invariant", "static analysis: interpretation of two projection sweeps on a finite scenario with exact rationals (minterp), inductive sign invariant", key='technique')
 _amend('C14', "written only as a copy of the initial matrix or by A_old[:] = A under `satisfy`,", "written only as a copy of the initial matrix or by A_old[:] = A under `satisfy` and a comparison fD(dissimilar pairs, A_old) < fD(dissimilar pairs, A) of one objective at the kept and the new iterate (structural matcher),")
+_amend('C06', "Which concrete arrays scikit-learn's check_array rejects, feature-count mismatch at predict time and array-like equivalence are NOT decided.", "a query whose feature count differs from the fitted one is rejected because transform / pair_distance / the get_metric closure combine the data with components_ only through shape-strict products (dot / matmul / @; an einsum or element-wise product that would broadcast a single-feature query is refuted). Which concrete arrays scikit-learn's check_array rejects and array-like equivalence beyond dtype are NOT decided.")
+_amend('C12', "the main loop stops only on the documented criteria;", "the main loop stops only on the documented criteria and an exhausted run stores n_iter_ = max_iter; no library call overwrites the prior it is then started from (overwrite_a=True on a live value);")
+_amend('C14', "no hyper-parameter is reassigned", "no array is updated through a ravel() / reshape(-1) alias without write-back (lost for Fortran-ordered init); no hyper-parameter is reassigned")
+_amend('C16', "Decides", "Decides (the validation pairs are validated with the same dtype option as predict / decision_function validate theirs, so the cut-off is chosen among the distances predict compares it with)", )
